@@ -162,6 +162,19 @@ func cmdVerify(args []string) int {
 			all = append(all, o)
 		}
 	}
+	// lemmas used by the selected functions (or all lemmas when no filter)
+	for _, name := range sortedKeys(w.Lemmas) {
+		lc := w.Lemmas[name]
+		if *fn != "" && !strings.Contains(","+*fn+",", ",lemma."+name+",") {
+			continue
+		}
+		if *prop != "" && !hasTag(lc.tags(), *prop) {
+			continue
+		}
+		rep := eng.verifyLemma(name, lc)
+		reports = append(reports, rep)
+		all = append(all, rep.Obls...)
+	}
 	genT := time.Since(t0) - loadT
 	dir := *keep
 	if dir == "" {
@@ -239,7 +252,7 @@ func cmdVerify(args []string) int {
 		violations++
 		path := writeReplay(*replayDir, pid, o.Name, map[string]interface{}{
 			"obligation": o.Name, "function": o.Func, "kind": o.Kind, "where": o.Where, "result": o.Result, "solver": o.Solver,
-			"solver_output_model": o.Model, "detail": o.Detail, "goal": o.Goal.String(), "failing_input": nil,
+			"solver_output_model": o.Model, "candidate_model_qf_relaxation": o.CandModel, "detail": o.Detail, "goal": o.Goal.String(), "failing_input": nil,
 		})
 		fmt.Printf("VIOLATION property=%s replay=%s no-failing-input-found\n", pid, path)
 	}
